@@ -189,6 +189,8 @@ def enabled_env(world, kinds=("start", "finish_ok", "finish_fail", "timeout", "c
             acts.append(("env", "cancel", t.name))
         if j["state"] in simsched.FINAL and j["in_queue"] and "forget" in kinds:
             acts.append(("env", "forget", t.name))
+        if j["state"] == "FAILED" and "requeue" in kinds and world.sim["kind"] == "slurm":
+            acts.append(("env", "requeue", t.name))
     return acts
 
 
